@@ -12,6 +12,9 @@ wt, patch, checks = args[0], args[1], args[2:]
 name = os.path.basename(wt.rstrip('/'))
 simdir = '/tmp/sim_' + name
 subprocess.run(['git', '-C', wt, 'checkout', '--', '.'], check=True)
+# evaluate on top of the repaired tree (/repo's committed HEAD), not on the commit the worktree was created at
+head = subprocess.run(['git', '-C', '/repo', 'rev-parse', 'HEAD'], capture_output=True, text=True).stdout.strip()
+subprocess.run(['git', '-C', wt, 'checkout', '-q', '--detach', head], check=True)
 subprocess.run(['git', '-C', wt, 'apply', patch], check=True)
 try:
     os.makedirs(simdir, exist_ok=True)
